@@ -265,6 +265,59 @@ theorem solve_returns (termF : Nat → Bool × Bool) (d : Delta) (hd : d.dGens =
       apply ih (c.after d) (after_maxiter_val c d g hlim) (by simpa using hp) (by simp; omega)
       rw [after_gens c d hp, hd]; omega
 
+/-! ### evaluations overshoot the limit by less than one iteration's worth; the wrappers' warnflag -/
+
+theorem step_evals_of_ran (c : Ctl) (tp tq : Bool) (d : Delta) (hran : (c.step tp tq d).2.2 = true) :
+    (c.step tp tq d).1.evals = c.evals + d.dEvals := by
+  rcases step_cases c tp tq d with ⟨m, _, hs⟩ | ⟨_, m, _, hs⟩ | ⟨_, _, hs⟩
+  · rw [hs] at hran; simp at hran
+  · rw [hs]
+    have h1 : (c.after d).finalize.evals = (c.after d).evals := by unfold Ctl.finalize; split <;> rfl
+    have h2 : (c.after d).evals = c.evals + d.dEvals := by simp [Ctl.after]
+    simp only [h1, h2]
+  · rw [hs]; simp [Ctl.after]
+
+/-- **evaluation limit.** If `Step` ran an iteration (after the initial evaluation) the evaluation limit in force
+was not yet reached when it began, so afterwards the evaluation count exceeds that limit by less than what this one
+iteration added (`d.dEvals`). -/
+theorem evals_overshoot_lt_one_step (c : Ctl) (termPre termPost : Bool) (d : Delta) (hn : c.nstep ≠ 0)
+    (hran : (c.step termPre termPost d).2.2 = true) (m : Nat) (hm : c.pre.maxfun = .val m) :
+    (c.step termPre termPost d).1.evals < m + d.dEvals := by
+  have hpre := step_ran_only_if_not_stopped c termPre termPost d hran
+  have hlt : c.evals < m := by
+    unfold Ctl.preMsg at hpre
+    rw [if_neg hn] at hpre
+    have hnone : ¬ (c.pre.message termPre).isSome = true := by rw [hpre]; simp
+    rw [message_isSome_iff] at hnone
+    have h1 : ¬ c.pre.maxfun.reached c.pre.evals = true := fun h => hnone (Or.inl h)
+    have he : c.pre.evals = c.evals := by
+      unfold Ctl.pre; rw [if_neg hn]; simp [Ctl.resolve]
+    rw [he, hm] at h1
+    simp only [Lim.reached, decide_eq_true_eq] at h1
+    omega
+  have hev := step_evals_of_ran c termPre termPost d hran
+  rw [hev]; omega
+
+/-- **the wrappers' warnflag names a condition that is true of the final state**: 1 only if the evaluation limit is
+reached, 2 only if the generation limit is reached (and the evaluation limit is not), 0 only if neither is. -/
+theorem warnflag_truthful (c : Ctl) :
+    (c.warnflag = 1 → c.maxfun.reached c.evals = true) ∧
+    (c.warnflag = 2 → c.maxiter.reached c.gens = true ∧ c.maxfun.reached c.evals = false) ∧
+    (c.warnflag = 0 → c.maxfun.reached c.evals = false ∧ c.maxiter.reached c.gens = false) ∧
+    c.warnflag ≤ 2 := by
+  unfold Ctl.warnflag
+  cases h1 : c.maxfun.reached c.evals <;> cases h2 : c.maxiter.reached c.gens <;> simp
+
+/-- the warnflag is non-zero exactly when `Terminated` attributes the stop to the limits -/
+theorem warnflag_iff_limit_message (c : Ctl) (term : Bool) : c.message term = some .lim ↔ c.warnflag ≠ 0 := by
+  unfold Ctl.message Ctl.warnflag
+  cases h1 : c.maxfun.reached c.evals <;> cases h2 : c.maxiter.reached c.gens <;> cases h3 : c.earlyExit <;>
+    cases term <;> simp
+
+example : ({ evals := 7, gens := 3, maxfun := .val 7, maxiter := .val 3 } : Ctl).warnflag = 1 ∧
+    ({ evals := 6, gens := 3, maxfun := .val 7, maxiter := .val 3 } : Ctl).warnflag = 2 ∧
+    ({ evals := 6, gens := 2, maxfun := .val 7, maxiter := .val 3 } : Ctl).warnflag = 0 := by decide
+
 /-- non-vacuity: a run that stops by its generation limit, with a truthful message -/
 example : (({ nstep := 1, gens := 2, maxiter := .val 2, live := true } : Ctl).step false false { dEvals := 3 }).2.1 = some .lim := by
   decide
